@@ -306,7 +306,7 @@ pub fn run() -> i32 {
     let (sn2, sn3) = (tier.pick(200usize, 300), tier.pick(40usize, 64));
     let depth = tier.pick(5usize, 6);
     let alphabet: [usize; 14] = [0, 1, 15, 16, 17, 63, 64, 65, 127, 128, 129, 255, 256, 257];
-    ctx.rule = format!("history-replay exploration of the pending-buffer automaton of each incremental interface ({} hash/MAC interfaces + 2 signing interfaces), one fresh real object per history: (a) ALL partitions of every message length n into <=3 consecutive pieces, empty pieces included (2-way n<={}, 3-way n<={}, 4-way n<={}; signing: 2-way n<={}, 3-way n<={}); (b) ALL update sequences over the piece alphabet {:?} up to depth {} (signing depth 3); oracle: result == dryoc one-shot == libsodium one-shot on the concatenation (signing: signature bytes and the incremental verifier accepts); states = distinct (interface, pending-buffer fill, absorbed-blocks class) reached, transitions = update calls", IFACES.len() - 1, n2, n3, n4, sn2, sn3, alphabet, depth);
+    ctx.rule = format!("history-replay exploration of the pending-buffer automaton of each incremental interface ({} hash/MAC interfaces + 2 signing interfaces), one fresh real object per history: (a) ALL partitions of every message length n into <=3 consecutive pieces, empty pieces included (2-way n<={}, 3-way n<={}, 4-way n<={}; signing: 2-way n<={}, 3-way n<={}); (b) ALL update sequences over the piece alphabet {:?} up to depth {} (signing depth 3); (c) ALL sequences of 3 updates over the large-piece alphabet {{0,1,127,128,129,4096,8191,8192,8193,16385}}; oracle: result == dryoc one-shot == libsodium one-shot on the concatenation (signing: signature bytes and the incremental verifier accepts); states = distinct (interface, pending-buffer fill, absorbed-blocks class) reached, transitions = update calls", IFACES.len() - 1, n2, n3, n4, sn2, sn3, alphabet, depth);
     ctx.assume("message bytes are a fixed counting pattern: the automaton under test is driven by lengths, not values");
     let p = Params::new(seed);
     let tracker = std::sync::Mutex::new(Tracker { states: HashSet::new(), transitions: 0 });
@@ -407,6 +407,36 @@ pub fn run() -> i32 {
         }
     });
     ctx.absorb("alphabet-sequences", st);
+
+    // large pieces: all sequences of <= 3 updates over {0, 1, 127, 128, 129, 4096, 8191, 8192, 8193, 16385}
+    let bigalpha: [usize; 10] = [0, 1, 127, 128, 129, 4096, 8191, 8192, 8193, 16385];
+    let mut units: Vec<(Iface, usize)> = vec![];
+    for &i in &all {
+        if !matches!(i, Iface::SignClassic | Iface::SignObject) {
+            for a in 0..bigalpha.len() {
+                units.push((i, a));
+            }
+        }
+    }
+    let st = par_units(&units, |&(i, a), st| {
+        let mut tr = Tracker { states: HashSet::new(), transitions: 0 };
+        for b in 0..bigalpha.len() {
+            for c in 0..bigalpha.len() {
+                let seq = [bigalpha[a], bigalpha[b], bigalpha[c]];
+                let n: usize = seq.iter().sum();
+                let cuts = [seq[0], seq[0] + seq[1]];
+                let msg = message(seed, n);
+                let one = oneshot(i, &p, &msg);
+                judge(st, i, &p, &msg, &cuts, &one, "large-piece sequence");
+                tr.walk(i, n, &cuts);
+            }
+        }
+        st.distinct = st.evaluations;
+        let mut g = tracker.lock().unwrap();
+        g.transitions += tr.transitions;
+        g.states.extend(tr.states);
+    });
+    ctx.absorb("large-piece-sequences", st);
     let g = tracker.lock().unwrap();
     ctx.total.states = g.states.len() as u64;
     ctx.total.transitions = g.transitions;
